@@ -2,13 +2,29 @@
 
 package consensus
 
+// Property C19: consensus through the node's dBFT integration is safe, and live under synchrony.
+// White-box harness compiled into package consensus through `go test -overlay` (see /verif/run).
+
 import (
 	"testing"
 
 	"verifharness/vt"
 )
 
-func init() { vt.PropertyID = "C19" }
+func init() {
+	vt.PropertyID = "C19"
+	vt.Register("safety", 1, c19GenSafety, c19CheckSafety)
+	vt.Register("liveness", 0.5, c19GenLive, c19CheckLive)
+	vt.Register("recovery", 0.5, c19GenRecovery, c19CheckLive)
+	vt.Register("proposal", 0.3, c19GenProp, c19CheckProp)
+}
 
-func TestProp(t *testing.T)   { vt.RunAll(t, 10) }
-func TestReplay(t *testing.T) { vt.ReplayAll(t) }
+func TestProp(t *testing.T) {
+	defer c19Cleanup()
+	vt.RunAll(t, 10)
+}
+
+func TestReplay(t *testing.T) {
+	defer c19Cleanup()
+	vt.ReplayAll(t)
+}
